@@ -560,9 +560,44 @@ def nontrivial_key(r):
     return None
 
 
+KNOWN_ZERO_DROP = "error-in-term-multiplied-by-zero-unreported"
+
+WITNESS = "\t.link 2000\nxb = la1 + 12\nlb1:\t.dword (2 / (xb / 65536.)) * 0\nla1:\t.word 0\n"
+
+
+def is_zero_drop(r, enc):
+    """known finding: Spec says error, all its diagnostics sit in a term multiplied by a constant 0, and the
+    implementation assembled silently with exactly the value obtained by taking that product as 0"""
+    if r["tree"] is None or r["obs"][0] != "value":
+        return False
+    syms, dot = layout_syms(r["lay"])
+    v = X.zero_drop_value(r["tree"], syms, r.get("dot", dot), enc)
+    return v is not None and v == r["obs"][1]
+
+
+def witness_known_finding(rep):
+    """the fixed 4-line witness, assembled on every run"""
+    o = impl.assemble([("t.mac", WITNESS)])
+    rep.add_eval()
+    errors = sorted({d[1] for d in o["diags"] if d[0] != "warning"})
+    rep.count("witness:" + o["outcome"])
+    if o["outcome"] == "ok" and not errors:
+        rep.violate(KNOWN_ZERO_DROP, "division by zero inside a term multiplied by constant 0 is not reported (fixed witness)",
+                    {"files": [["t.mac", WITNESS]]}, impl={"outcome": o["outcome"], "code": o.get("code"), "errors": errors},
+                    expected="error 'arithmetic-error' (xb / 65536. is 0)")
+    elif not (o["outcome"] == "failed" and "arithmetic-error" in errors):
+        rep.violate("witness:" + o["outcome"] + ":" + ",".join(errors), "the fixed witness of the known finding ends in neither of the two expected ways",
+                    {"files": [["t.mac", WITNESS]]}, impl={"outcome": o["outcome"], "errors": errors, "crash": o.get("crash")})
+
+
 def report_violation(rep, r, enc, how):
     syms, dot = layout_syms(r["lay"])
     dot = r.get("dot", dot)
+    if is_zero_drop(r, enc):
+        rep.violate(KNOWN_ZERO_DROP, "a diagnostic inside a term multiplied by constant 0 is not issued; the stored value is the one for any finite term (" + how + ")",
+                    {"expression": r["text"], "files": [["t.mac", r["src"]]], "symbols": syms, "dot": dot}, impl=r["raw"],
+                    oracle="Spec.Arith.eval evaluated in coqc (Run.C05Spec.prop); shape decided on the expression tree (c05_expr.zero_drop_value)")
+        return
     exp = X.expected(r["tree"], syms, dot, enc)
     rep.violate("expr:" + r["text"][:120] + (" @%d" % r["iteration"] if r.get("iteration") else ""),
                 "'.dword <expr>' stored a value / reported an outcome that contradicts the documented arithmetic (" + how + ")",
@@ -645,8 +680,9 @@ def explore(rep, br, tier, seed):
         rep.sample({"kind": r["kind"], "expression": r["text"], "observed": r["obs"]})
     codes = judge(recs, "Run.C05Run", "judge")
     # the finite table facts, evaluated in the same coqc session style (separate tiny file)
+    witness_known_finding(rep)
     for r, code in zip(recs, codes):
-        if code & 1:
+        if code & 1 and not (code & 2 and is_zero_drop(r, enc)):     # (the model reports the error, as the Spec does)
             rep.disagree("Model.ExprParse/Lexer/GenOperators vs '.dword' on the real assembler",
                          {"expression": r["text"], "files": [["t.mac", r["src"]]], "evaluation": r.get("iteration", 0)}, impl=r["raw"])
         if code & 2:
